@@ -27,14 +27,29 @@ def cutoff100(radii, nm, e1, e2):
     return radii[e1] + radii[e2] + (45 if (e1 in nm or e2 in nm) else 0)
 
 
-def run_impl(elements, pos, cell):
+def run_impl(elements, pos, cell, pre=None):
+    """pre = (n0, factors): the structure is the replica of its first n0 atoms; the bonds of that unit were detected on the SAME object
+    lineage before it was replicated (nothing of the first analysis may leak into the second)"""
     from mofun import Atoms
     from mofun.detect_bonds import detect_bonds
     from mofun.atomic_masses import ATOMIC_MASSES
     els = list(dict.fromkeys(elements))
     with FG.quiet():
-        a = Atoms(atom_types=[els.index(e) for e in elements], atom_type_elements=els, atom_type_masses=[ATOMIC_MASSES.get(e, 1.0) for e in els],
-                  atom_type_labels=els, positions=np.array(pos, float) / G, cell=(None if cell is None else np.array(cell, float) / G))
+        if pre is not None:
+            n0, f = pre
+            c0 = [[x // f[i] for x in cell[i]] for i in range(3)]
+            u = Atoms(atom_types=[els.index(e) for e in elements[:n0]], atom_type_elements=els, atom_type_masses=[ATOMIC_MASSES.get(e, 1.0) for e in els],
+                      atom_type_labels=els, positions=np.array(pos[:n0], float) / G, cell=np.array(c0, float) / G)
+            try:
+                detect_bonds(u)
+            except Exception:   # noqa
+                pass
+            a = u.replicate(tuple(f))
+            if len(a) != len(elements) or not np.allclose(np.array(a.positions) * G, np.array(pos, float), atol=1e-6):
+                return ("error", "replicate did not give the expected replica")
+        else:
+            a = Atoms(atom_types=[els.index(e) for e in elements], atom_type_elements=els, atom_type_masses=[ATOMIC_MASSES.get(e, 1.0) for e in els],
+                      atom_type_labels=els, positions=np.array(pos, float) / G, cell=(None if cell is None else np.array(cell, float) / G))
         try:
             b = detect_bonds(a)
         except Exception as e:   # noqa
@@ -83,6 +98,14 @@ def rand_cell(rng, minw):
         ci = [[int(round(x * G)) for x in row] for row in cell]
         if np.linalg.det(np.array(ci, float)) < 0:
             ci[2] = [-x for x in ci[2]]
+        if rng.random() < 0.2:
+            # a left-handed basis (negative determinant): two vectors listed in swapped order, or one mirrored
+            if rng.random() < 0.5:
+                ci[0], ci[1] = ci[1], ci[0]
+            else:
+                k = rng.randrange(3)
+                ci[k] = [-x for x in ci[k]]
+            kind = kind + "-lefthanded"
         if min(widths(ci)) > minw + 0.02:
             return ci, kind
     raise RuntimeError("cell")
@@ -158,14 +181,14 @@ def pair_cases(rng, radii, nm, pairs, minw, per_pair):
     return cases
 
 
-def random_structs(rng, radii, nm, minw, n):
+def random_structs(rng, radii, nm, minw, n, sizes=None):
     cases = []
     common = [e for e in ["C", "H", "O", "N", "Zn", "Zr", "Cu", "S", "Cl", "Li", "Si", "F"] if e in radii]
     need = max(cutoff100(radii, nm, x, y) for x in common for y in common) / 100.0
-    for _ in range(n):
-        cell, ck = rand_cell(rng, need)
+    for it in range(n):
+        k = rng.randint(3, 9) if sizes is None else sizes[it % len(sizes)]
+        cell, ck = rand_cell(rng, need if k < 20 else max(need, (k * 9.0) ** (1 / 3.0)))
         cm = np.array(cell, float)
-        k = rng.randint(3, 9)
         els, pos = [], []
         for _ in range(k):
             p, ok = wrap_int(np.array([rng.random() for _ in range(3)]) @ cm, cell)
@@ -187,6 +210,13 @@ def random_structs(rng, radii, nm, minw, n):
         perm = list(range(len(els)))
         rng.shuffle(perm)
         cases.append(dict(els=[els[i] for i in perm], pos=[pos[i] for i in perm], cell=cell, kind="random-permuted", perm=perm, perm_back=(2 if okall else 1)))
+        if it % 4 == 1 and len(els) <= 6:
+            # the replica of this structure, built by replicate() from an object whose bonds were detected before
+            f = rng.choice([(2, 1, 1), (1, 2, 1), (1, 1, 2), (2, 1, 2)])
+            mults = [(0, 0, 0)] + [(i, j, k) for k in range(f[2]) for i in range(f[0]) for j in range(f[1]) if (i, j, k) != (0, 0, 0)]
+            rp = [[p[d] + i * cell[0][d] + j * cell[1][d] + k * cell[2][d] for d in range(3)] for (i, j, k) in mults for p in pos]
+            rc = [[x * f[r] for x in cell[r]] for r in range(3)]
+            cases.append(dict(els=els * len(mults), pos=rp, cell=rc, kind="replica-of-analysed-unit", pre=[len(els), list(f)]))
     return cases
 
 
@@ -220,6 +250,9 @@ def main(tier, seed, replay=None):
                 pairs, per = allpairs, 2
             cases += pair_cases(run.rng, radii, nm, pairs, minw, per)
             cases += random_structs(run.rng, radii, nm, minw, 40 if tier == "quick" else 400)
+            # thorough tier: a few structures with dozens of atoms (size-dependent code paths; the exact statement costs O(N^2 * 125) in Coq)
+            if tier != "quick":
+                cases += random_structs(run.rng, radii, nm, minw, 3, sizes=[30, 45, 60])
         lits = []
         kept = []
         skipped = 0
@@ -229,7 +262,7 @@ def main(tier, seed, replay=None):
             if near:
                 skipped += 1
                 continue
-            got = run_impl(c["els"], c["pos"], c["cell"])
+            got = run_impl(c["els"], c["pos"], c["cell"], pre=c.get("pre"))
             results[ci] = got
             run.cov["evaluations"] += 1
             run.count(c["kind"].split(":")[0])
